@@ -116,7 +116,7 @@ Section WF.
   Lemma decorate_built v p s :
     BV v -> decor_built (decor_new p s) -> BV (value_decorate v p s).
   Proof.
-    intros Hv Hd. destruct Hv as [x d Hx _ | es d _ Hes | l d _ Hnd Hk Hl]; cbn [value_decorate]; constructor; assumption.
+    intros Hv Hd. destruct Hv as [x d Hx _ | es d _ Hes | es d _ Hes | l d _ Hnd Hk Hl]; cbn [value_decorate]; constructor; assumption.
   Qed.
 
   Lemma array_op_built vals v : BV v -> BV (array_value_op vals v).
